@@ -56,6 +56,7 @@ type Obligation struct {
 	Cover  bool // satisfiability expected (vacuity guard)
 	Clause string
 	ctx    *Exec
+	block  *ssa.BasicBlock // block of the top-level function in which the obligation arises
 	GetValues []*Term
 	// results
 	Verdict string // unsat | sat | unknown | timeout
@@ -92,6 +93,16 @@ type Exec struct {
 	curProps []string
 	inlineOf map[*ssa.Function]bool
 	strKeys  []strKey
+	loopPre  map[*ssa.BasicBlock]*State
+	obligedAt  map[*Term]*ssa.BasicBlock  // safety condition -> block where it was first obliged
+	skipped    int                        // safety conditions not re-queried (syntactically known)
+	curBlock   *ssa.BasicBlock            // current block of the top-level function
+	reachBlock map[*Term]*ssa.BasicBlock  // reach condition -> block (to find the origin of guarded hypotheses)
+	canReach   map[*ssa.BasicBlock]map[*ssa.BasicBlock]bool
+	loopTags  map[int]bool // havoc tags that stem from loop-entry havocs
+	inFrame   bool
+	recording *[]loc // when set: heap writes are recorded (closure write-set discovery)
+	mute      bool   // when set: no obligations are emitted
 	edgeReach map[[2]*ssa.BasicBlock]*Term
 }
 
@@ -129,8 +140,8 @@ func (x *Exec) assume(st *State, fact *Term) {
 
 func (x *Exec) assumeRanges(st *State, v Value, t types.Type) {
 	for _, f := range x.rangeFacts(v, t, st) {
-		if x.ranged[f] {
-			continue
+		if x.ranged[f] || f.bound {
+			continue // (facts about terms under a binder cannot be global hypotheses)
 		}
 		x.ranged[f] = true
 		x.hyps = append(x.hyps, f) // type invariants hold unconditionally for the symbols involved
@@ -138,6 +149,30 @@ func (x *Exec) assumeRanges(st *State, v Value, t types.Type) {
 }
 
 func (x *Exec) oblige(st *State, kind, desc string, p token.Pos, cond *Term, props []string, clause string) *Obligation {
+	if x.mute {
+		return nil
+	}
+	switch kind {
+	case "nilptr", "bounds", "slice", "nonzero", "no-overflow", "assert-type", "nilmap", "makeslice":
+		// a safety condition that is literally an unconditional hypothesis, or was already
+		// obliged (hence assumed) at a point that dominates this one, needs no second query
+		if x.c.isTrue(cond) || x.ranged[cond] {
+			x.skipped++
+			return nil
+		}
+		if prev, ok := x.obligedAt[cond]; ok && x.curBlock != nil && prev.Parent() == x.curBlock.Parent() && prev.Dominates(x.curBlock) && x.depth == 0 {
+			x.skipped++
+			return nil
+		}
+		if x.curBlock != nil && x.depth == 0 {
+			if x.obligedAt == nil {
+				x.obligedAt = map[*Term]*ssa.BasicBlock{}
+			}
+			if _, ok := x.obligedAt[cond]; !ok {
+				x.obligedAt[cond] = x.curBlock
+			}
+		}
+	}
 	goal := x.c.Implies(st.reach, cond)
 	x.count[kind]++
 	fname := x.unitName()
@@ -146,12 +181,21 @@ func (x *Exec) oblige(st *State, kind, desc string, p token.Pos, cond *Term, pro
 	if len(props) == 0 {
 		ob.Props = x.curProps
 	}
+	ob.block = x.curBlock
 	x.obls = append(x.obls, ob)
-	x.hyps = append(x.hyps, goal) // assert, then assume
+	switch kind {
+	case "ensures", "frame", "inv-keep", "callback-preserves":
+		// nothing executes after these points on the same path: not needed as hypotheses
+	default:
+		x.hyps = append(x.hyps, goal) // assert, then assume
+	}
 	return ob
 }
 
 func (x *Exec) cover(st *State, desc string, p token.Pos, cond *Term, props []string) {
+	if x.mute {
+		return
+	}
 	x.count["cover"]++
 	fname := x.unitName()
 	ob := &Obligation{Name: fmt.Sprintf("%s/cover/%d", shortFunc(fname), x.count["cover"]), Kind: "cover", Func: fname,
@@ -224,16 +268,32 @@ func (x *Exec) heapGetK(st *State, key string, sort Sort) *Term {
 	}
 	// was a matching prefix havoced before the first touch?
 	var tags []string
+	onlyLoop := true
 	for g, v := range st.tags {
 		if keyMatches(key, g) {
 			tags = append(tags, fmt.Sprint(v))
+			if !x.loopTags[v] {
+				onlyLoop = false
+			}
 		}
 	}
 	if len(tags) > 0 {
 		sort2 := sort
 		sortStrings(tags)
-		t := x.c.Const(fmt.Sprintf("H%d_%s_h%s", st.gen, sanitize(key), sanitize(strings.Join(tags, "_"))), sort2)
+		name := fmt.Sprintf("H%d_%s_h%s", st.gen, sanitize(key), sanitize(strings.Join(tags, "_")))
+		_, existed := x.c.tab[name+":"+string(x.c.rs(sort2))]
+		t := x.c.Const(name, sort2)
 		st.heap[key] = t
+		// A component first touched after loop havocs only: the function's frame (proved as loop
+		// invariant for every materialised component) relates it to the entry heap.
+		if !existed && onlyLoop && st.gen == 0 && x.fc != nil && x.fc.ModifiesGiven && x.entry != nil && x.fn != nil && !x.inFrame {
+			x.inFrame = true
+			tmp := &State{reach: x.c.True(), heap: map[string]*Term{key: t}, tags: map[string]int{}, cells: st.cells, allocTop: st.allocTop}
+			for _, fo := range x.frameGoals(tmp, x.fc) {
+				x.hyps = append(x.hyps, fo.goal)
+			}
+			x.inFrame = false
+		}
 		return t
 	}
 	return x.heapGet(st, key, sort)
@@ -352,6 +412,9 @@ func (x *Exec) storePtr(st *State, p PtrV, t types.Type, v Value) {
 	case PField:
 		prefix, _ := fieldPathInfo(p.Struct, p.Path)
 		base := "F:" + typeKey(p.Struct) + prefix
+		if x.recording != nil {
+			*x.recording = append(*x.recording, loc{kind: "field", base: p.Base, prefix: base, typ: t})
+		}
 		ls := leavesOf(t)
 		ts := x.flatten(v, t)
 		for i, l := range ls {
@@ -365,6 +428,9 @@ func (x *Exec) storePtr(st *State, p PtrV, t types.Type, v Value) {
 			return
 		}
 		base := "B:" + typeKey(t)
+		if x.recording != nil {
+			*x.recording = append(*x.recording, loc{kind: "box", base: p.Base, prefix: base, typ: t})
+		}
 		ls := leavesOf(t)
 		ts := x.flatten(v, t)
 		for i, l := range ls {
@@ -381,6 +447,9 @@ func (x *Exec) storePtr(st *State, p PtrV, t types.Type, v Value) {
 			prefix, ft = fieldPathInfo(named, p.Path)
 		}
 		base := "E:" + typeKey(et) + prefix
+		if x.recording != nil {
+			*x.recording = append(*x.recording, loc{kind: "elems", base: p.Base, prefix: "E:" + typeKey(et), typ: et})
+		}
 		ls := leavesOf(ft)
 		ts := x.flatten(v, ft)
 		for i, l := range ls {
@@ -475,6 +544,8 @@ type retInfo struct {
 	st      *State
 	results []Value
 	pos     token.Pos
+	via     string // for duplicated return blocks: where the path comes from
+	blk     *ssa.BasicBlock
 }
 
 type loopInfo struct {
@@ -592,7 +663,44 @@ func (x *Exec) runBody(fn *ssa.Function, st0 *State, params []Value, freevars []
 			if len(ins) == 0 {
 				continue // unreachable
 			}
+			// tail duplication of return blocks: the postcondition is proved per incoming path
+			// instead of once over an ite-merge of all of them (much smaller queries)
+			if ret, isRet := b.Instrs[len(b.Instrs)-1].(*ssa.Return); isRet && len(ins) > 1 && loops[b] == nil && fn == x.fn && simpleBlock(b) {
+				for _, e := range ins {
+					s := e.st.clone()
+					x.curBlock = e.from
+					if _, dup := x.reachBlock[s.reach]; !dup && !x.c.isTrue(s.reach) {
+						x.reachBlock[s.reach] = e.from
+					}
+					for _, in := range b.Instrs[:len(b.Instrs)-1] {
+						x.step(s, in)
+					}
+					var rs []Value
+					for _, r := range ret.Results {
+						rs = append(rs, x.val(s, r))
+					}
+					via := ""
+					for k := len(e.from.Instrs) - 1; k >= 0 && via == ""; k-- {
+						if p := e.from.Instrs[k].Pos(); p.IsValid() {
+							via = " [path via " + x.pos(p) + "]"
+						}
+					}
+					rets = append(rets, retInfo{s, rs, ret.Pos(), via, e.from})
+				}
+				continue
+			}
 			st = x.mergeStates(ins)
+		}
+		if fn == x.fn {
+			x.curBlock = b
+			if x.reachBlock == nil {
+				x.reachBlock = map[*Term]*ssa.BasicBlock{}
+			}
+			if !x.c.isTrue(st.reach) {
+				if _, dup := x.reachBlock[st.reach]; !dup {
+					x.reachBlock[st.reach] = b
+				}
+			}
 		}
 		if li, ok := loops[b]; ok {
 			st = x.enterLoop(fn, fc, li, st, loopEntry)
@@ -623,7 +731,7 @@ func (x *Exec) runBody(fn *ssa.Function, st0 *State, params []Value, freevars []
 			for _, r := range t.Results {
 				rs = append(rs, x.val(st, r))
 			}
-			rets = append(rets, retInfo{st, rs, t.Pos()})
+			rets = append(rets, retInfo{st, rs, t.Pos(), "", x.curBlock})
 		case *ssa.Panic:
 			x.handlePanic(fn, fc, st, t)
 		case nil:
@@ -631,6 +739,65 @@ func (x *Exec) runBody(fn *ssa.Function, st0 *State, params []Value, freevars []
 		}
 	}
 	return rets
+}
+
+// blockCanReach: is there a path a ->* b in the loop-cut CFG (back edges ignored)?
+func (x *Exec) blockCanReach(a, b *ssa.BasicBlock) bool {
+	if a == b {
+		return true
+	}
+	if x.canReach == nil {
+		x.canReach = map[*ssa.BasicBlock]map[*ssa.BasicBlock]bool{}
+	}
+	m, ok := x.canReach[a]
+	if !ok {
+		m = map[*ssa.BasicBlock]bool{}
+		stack := []*ssa.BasicBlock{a}
+		for len(stack) > 0 {
+			n := stack[len(stack)-1]
+			stack = stack[:len(stack)-1]
+			for _, s := range n.Succs {
+				if s.Dominates(n) || m[s] {
+					continue
+				}
+				m[s] = true
+				stack = append(stack, s)
+			}
+		}
+		x.canReach[a] = m
+	}
+	return m[b]
+}
+
+// relevantHyps drops hypotheses guarded by the reach condition of a block from which the
+// obligation's block cannot be reached (sibling branches): sound, fewer hypotheses.
+func (x *Exec) relevantHyps(ob *Obligation) []*Term {
+	hyps := x.hyps[:ob.NHyps]
+	if ob.block == nil || x.reachBlock == nil {
+		return hyps
+	}
+	out := make([]*Term, 0, len(hyps))
+	for _, h := range hyps {
+		if h.op == "=>" && len(h.args) == 2 {
+			if blk, ok := x.reachBlock[h.args[0]]; ok && blk.Parent() == ob.block.Parent() && !x.blockCanReach(blk, ob.block) {
+				continue
+			}
+		}
+		out = append(out, h)
+	}
+	return out
+}
+
+// simpleBlock: only loads, field/index address computations and the like (safe to duplicate).
+func simpleBlock(b *ssa.BasicBlock) bool {
+	for _, in := range b.Instrs {
+		switch in.(type) {
+		case *ssa.UnOp, *ssa.FieldAddr, *ssa.Field, *ssa.DebugRef, *ssa.Return, *ssa.RunDefers, *ssa.Extract, *ssa.Store, *ssa.ChangeType, *ssa.MakeInterface, *ssa.Convert, *ssa.BinOp:
+		default:
+			return false
+		}
+	}
+	return true
 }
 
 func (x *Exec) edge(fn *ssa.Function, fc *FuncContract, loops map[*ssa.BasicBlock]*loopInfo, loopEntry map[*ssa.BasicBlock]*State,
@@ -777,13 +944,24 @@ func (x *Exec) enterLoop(fn *ssa.Function, fc *FuncContract, li *loopInfo, st *S
 			}
 		}
 	}
+	gensBefore := x.gens
 	x.applyEffects(ns, eff)
+	if x.loopTags == nil {
+		x.loopTags = map[int]bool{}
+	}
+	for g := gensBefore + 1; g <= x.gens; g++ {
+		x.loopTags[g] = true
+	}
 	if eff.allocs {
 		nt := x.c.Fresh("allocTop", SInt)
 		x.hyps = append(x.hyps, x.c.Le(ns.allocTop, nt))
 		ns.allocTop = nt
 	}
 	loopEntry[li.header] = ns.clone()
+	if x.loopPre == nil {
+		x.loopPre = map[*ssa.BasicBlock]*State{}
+	}
+	x.loopPre[li.header] = pre
 	// 3. assume the invariant in the havoced state
 	x.assumeInvariant(fn, fc, li, ns, pre)
 	return ns
@@ -815,22 +993,44 @@ func (x *Exec) checkInvariant(fn *ssa.Function, fc *FuncContract, li *loopInfo, 
 	for _, cl := range x.loopClauses(fn, fc, li) {
 		env := x.envFor(fn, st, x.entryFor(fn), nil)
 		env.iter = iterSt
+		env.pre = st
+		if kind == "inv-keep" && x.loopPre != nil {
+			env.pre = x.loopPre[li.header]
+		}
 		env.locals = true
+		env.pos = li.minPos
 		t := x.evalBool(cl.Expr, env)
 		x.oblige(st, kind, fmt.Sprintf("loop %d invariant: %s", li.ordinal, cl.Text), li.minPos, t, cl.Props, cl.Text)
 	}
 	// frame invariant: implied by the function's modifies clause
 	if fc != nil && fc.ModifiesGiven && fn == x.fn {
-		for _, fo := range x.frameGoals(st, fc) {
-			x.oblige(st, kind, fmt.Sprintf("loop %d frame: %s", li.ordinal, fo.desc), li.minPos, fo.goal, fc.ModProps, "modifies")
+		if g, desc := x.frameConj(st, fc); g != nil {
+			x.oblige(st, kind, fmt.Sprintf("loop %d frame: unchanged outside the modifies clause: %s", li.ordinal, desc), li.minPos, g, fc.ModProps, "modifies")
 		}
 	}
+}
+
+// frameConj: the frame goals of all changed heap components as one conjunction.
+func (x *Exec) frameConj(st *State, fc *FuncContract) (*Term, string) {
+	fos := x.frameGoals(st, fc)
+	if len(fos) == 0 {
+		return nil, ""
+	}
+	var gs []*Term
+	var names []string
+	for _, fo := range fos {
+		gs = append(gs, fo.goal)
+		names = append(names, strings.TrimSuffix(strings.TrimSuffix(fo.desc, " unchanged outside the modifies clause"), " unchanged"))
+	}
+	return x.c.And(gs...), strings.Join(names, ", ")
 }
 
 func (x *Exec) assumeInvariant(fn *ssa.Function, fc *FuncContract, li *loopInfo, st *State, pre *State) {
 	for _, cl := range x.loopClauses(fn, fc, li) {
 		env := x.envFor(fn, st, x.entryFor(fn), nil)
 		env.locals = true
+		env.pos = li.minPos
+		env.pre = pre
 		t := x.evalBool(cl.Expr, env)
 		x.assume(st, t)
 	}
